@@ -187,7 +187,17 @@ Section C13.
     /\ (forall e outs, hs_out h = HFail e outs -> accepts cfg e = FNo ->
           poison_pubs (pproj tr) = [] /\ exists o e', r = MRet o (Some e') /\ outs_eqb eqbM o outs = true /\ err_eqb e' e = true).
   Proof. exact (c13_monitor_sound_rest txt). Qed.
+
+  (** the outcome does not depend on the state of the message context: a context that ends while
+      the handler runs (cancelled by the handler, cancelled or timed out from outside) changes
+      neither the result, nor what is published, nor the settlement; a context already ended at
+      delivery is not an input of the model at all (poison.go reads only context VALUES) *)
+  Theorem C13_context_state_irrelevant : forall cfg c0 m0 pre acts (out : hout M) pp pk pb seen,
+    poison cfg c0 m0 seen (HS pre (strip_cancel acts) out) pp = poison cfg c0 m0 seen (HS pre acts out) pp
+    /\ in_router cfg c0 m0 (HS pre (strip_cancel acts) out) pp pk pb = in_router cfg c0 m0 (HS pre acts out) pp pk pb.
+  Proof. exact (ctx_state_irrelevant txt). Qed.
 End C13.
+Print Assumptions C13_context_state_irrelevant.
 Print Assumptions C13_monitor_sound_rest.
 Print Assumptions C13_constructor_rejects_empty_topic.
 Print Assumptions C13_poison_metadata.
